@@ -453,9 +453,13 @@ func (gen *Generator) GenerateCond(args []Sexp) error {
 }
 
 func (gen *Generator) GenerateQuote(args []Sexp) error {
-	for _, expr := range args {
-		gen.AddInstruction(PushInstr{expr})
+	// a form leaves exactly one value: that of the last datum, as before,
+	// but without the earlier ones staying on the data stack beneath it.
+	if len(args) == 0 {
+		gen.AddInstruction(PushInstr{SexpNull})
+		return nil
 	}
+	gen.AddInstruction(PushInstr{args[len(args)-1]})
 	return nil
 }
 
